@@ -1,5 +1,5 @@
 """C01 — exactly one response per client request, on the request's own stream."""
-from checks import pendingstage
+from checks import connstage, pendingstage
 from checks import reqfamily as rf
 
 
@@ -25,4 +25,4 @@ def run(ctx):
         ("gated-d11", ["-scenario", "d11"], "gates", "gated-reprepare-send-fails"),
     ]
     rf.run_property(ctx, "C01", plans, scenario_filter=lambda s: "drop" in s["outcomes"] or len(s["outcomes"]) >= 2, nscen=400, design=True,
-                    stages=[lambda c: pendingstage.run(c, "C01")])
+                    stages=[lambda c: pendingstage.run(c, "C01"), lambda c: connstage.run(c, "C01")])
